@@ -107,6 +107,9 @@ func (Engine) Generate(r *simcore.RNG, tier string, idx int) *simcore.Plan {
 		p.Config["price"] = 0
 	}
 	faults := idx%2 == 1
+	if idx%4 == 3 {
+		p.Config["spec"] = 60 + int64(idx/4%5)*60 // permille of blocks first executed speculatively on a discarded branch (simchain.Node.Spec)
+	}
 	npools := int(r.Range(1, 3))
 	for i := 0; i < npools; i++ {
 		p.Steps = append(p.Steps, simcore.Step{Op: "pool", A: []int64{r.Range(0, 4), int64(i), r.Range(0, 3), r.Range(0, 8)}})
@@ -367,6 +370,12 @@ func (Engine) Execute(run *simcore.Run) {
 		mg.Minter.EpochProvisions = osmomath.ZeroDec()
 		gs[minttypes.ModuleName] = cdc.MustMarshalJSON(&mg)
 	}})
+	n.Spec = run.Plan.Cfg("spec", 0)
+	defer func() {
+		for i := 0; i < n.Specs; i++ {
+			run.Fault("speculative-block-discarded")
+		}
+	}()
 	n.Jitter = p.Cfg("jitter", 0) == 1
 	w := &world{run: run, n: n, users: users, pos: map[uint64]*refPos{}, uptimes: uptimeSet[:nUp], threshold: threshold, ithreshold: uint64(p.Cfg("ithreshold", p.Cfg("threshold", 0))), round: p.Cfg("round", 0) == 1}
 
